@@ -10,9 +10,9 @@ import (
 
 func init() {
 	register("C01", &propSpec{
-		level: "other",
+		level:       "other",
 		explanation: "Cursor coherence of every client transfer loop and argument agreement of every server read/write site, decided by symbolic (affine) comparison of SSA values: the offset sent is start+cursor, the buffer region handed over starts at the same cursor, the cursor advances by exactly the bytes the iteration covers, the length field equals the chunk's length, chunks are bounded by maxPacket; servers pass the packet's own offset and buffer to the backing object and answer with exactly the bytes it returned; the server clamps reads to its maximum. Necessary conditions of byte-exact transfer; equality of bytes after reordering is not decided.",
-		run: runC01,
+		run:         runC01,
 		assumptions: []string{"the backing object's ReadAt/WriteAt honour their io contracts", "the client's packet size does not exceed the server's maximum (premise of the property)"},
 	})
 }
